@@ -149,8 +149,44 @@ def lonlat_deg(v):
 # ---------------------------------------------------------------------------------------------
 # cases
 
-def gen_case(rng, prov=None, ops=None, special=None, big=False):
-    m = meshgen.gen_mesh(rng, max_ops=10 if big else 4, rot=True)
+class _Patch:
+    """a fine regional mesh: n x k cells of a lon/lat lattice with spacing h degrees (0.05 .. 0.3), as
+    quads or split into triangles, placed anywhere incl. across the antimeridian and next to a pole —
+    every edge and face is tiny, which is where array-wide shortcuts of the library trigger"""
+
+    def __init__(self, rng):
+        import math
+        n, k = rng.randrange(3, 13), rng.randrange(3, 13)
+        h = rng.uniform(0.05, 0.3)
+        where = rng.choice(["mid", "mid", "antimeridian", "prime", "polar", "equator"])
+        lat0 = {"mid": rng.uniform(-75, 75), "antimeridian": rng.uniform(-60, 60), "prime": rng.uniform(-60, 60),
+                "polar": rng.choice([1, -1]) * rng.uniform(84, 89.0 - k * h), "equator": -h * k / 2}[where]
+        lon0 = {"mid": rng.uniform(-170, 160), "antimeridian": 180 - h * n / 2, "prime": -h * n / 2,
+                "polar": rng.uniform(-180, 170), "equator": rng.uniform(-170, 160)}[where]
+        tri = rng.random() < 0.4
+        self.nodes, self.faces = [], []
+        for j in range(k + 1):
+            for i in range(n + 1):
+                lo, la = math.radians(lon0 + i * h), math.radians(lat0 + j * h)
+                self.nodes.append((math.cos(lo) * math.cos(la), math.sin(lo) * math.cos(la), math.sin(la)))
+        for j in range(k):
+            for i in range(n):
+                a, b = j * (n + 1) + i, j * (n + 1) + i + 1
+                c, d = (j + 1) * (n + 1) + i + 1, (j + 1) * (n + 1) + i
+                if tri:
+                    self.faces += [[a, b, c], [a, c, d]] if (i + j) % 2 else [[a, b, d], [b, c, d]]
+                else:
+                    self.faces.append([a, b, c, d])
+        rng.shuffle(self.faces)
+        self.name = "patch:%dx%d:h=%.3f:%s:%s" % (n, k, h, where, "tri" if tri else "quad")
+
+
+def gen_case(rng, prov=None, ops=None, special=None, big=False, fine=False):
+    if fine:
+        m = _Patch(rng)
+        special = "none"
+    else:
+        m = meshgen.gen_mesh(rng, max_ops=10 if big else 4, rot=True)
     special = special if special is not None else rng.choice(
         ["none", "none", "npole", "spole", "antimeridian", "prime", "lon90", "snapzone", "nearpole"])
     nodes = [np.array(p, float) for p in m.nodes]
@@ -161,7 +197,7 @@ def gen_case(rng, prov=None, ops=None, special=None, big=False):
         R = rot_to(nodes[j], [float(x) for x in tgt])
         nodes = [R @ p for p in nodes]
         forced = (j, tgt)
-    rat = [rat_unit(p) for p in nodes]
+    rat = [rat_unit(p, bits=46 if fine else 22) for p in nodes]
     if forced:
         rat[forced[0]] = forced[1]
     faces = [list(f) for f in m.faces]
@@ -187,6 +223,7 @@ def gen_case(rng, prov=None, ops=None, special=None, big=False):
         "special": special,
         "width_extra": rng.choice([0, 0, 1]),
         "name": m.name,
+        "fine": bool(fine),
     }
     if ops is None:
         k = rng.randrange(0, 6)
@@ -221,8 +258,11 @@ class Source:
                 for el in elems:
                     c = [sum(float(self.node_dir[i][a]) for i in el) / len(el) for a in range(3)]
                     # a centre the source chose itself: near, but not at, the normalised mean
-                    c = [c[a] + r.uniform(-0.02, 0.02) for a in range(3)]
-                    out.append(mpv(rat_unit(c)))
+                    # (displaced by a fraction of the element's own size)
+                    spread = max(max(abs(float(self.node_dir[i][a]) - c[a]) for a in range(3)) for i in el)
+                    amp = min(0.02, 0.3 * spread)
+                    c = [c[a] + r.uniform(-amp, amp) for a in range(3)]
+                    out.append(mpv(rat_unit(c, bits=46 if case.get("fine") else 22)))
                 self.dirs[k] = out
         self.arrays = {}
         for k in KINDS:
@@ -860,6 +900,9 @@ def gen_cases(ck):
             names = [n if n in ("normalize", "welzl", "cartavg") else rng.choice(
                 (LLN if group_of(n)[1] == "ll" else XYZN)[group_of(n)[0]]) for n in h]
             cases.append(gen_case(rng, prov=dict(p), ops=names))
+    # (b') fine regional meshes (all elements tiny) over the whole provenance lattice
+    for i in range(72 if quick else 480):
+        cases.append(gen_case(rng, prov=dict(provs[i % len(provs)]), fine=True))
     # (c) free random cases (bigger meshes in the thorough tier)
     for i in range(150 if quick else 1500):
         cases.append(gen_case(rng, big=(not quick and i % 10 == 0)))
@@ -876,7 +919,9 @@ def main(ck):
     ck.cov["rule"] = (
         "sources built from exact rational unit vectors on sphere tilings (meshgen: 9 polyhedra grown by split/"
         "subdivide/stellate/dual, partial by deletion, renumbered), one node forced onto a pole / the antimeridian / "
-        "the prime meridian / lon 90 / inside or just outside the 1e-8 snap zone in a fixed share of cases; provenance "
+        "the prime meridian / lon 90 / inside or just outside the 1e-8 snap zone in a fixed share of cases; plus fine regional "
+        "patches (3..12 x 3..12 lattice cells of 0.05..0.3 degrees, quads or triangles, mid-latitude / across the antimeridian / "
+        "prime meridian / equator / next to a pole) on which EVERY edge and face is tiny; provenance "
         "lattice node{ll,xyz,both} x edge{none,ll,xyz,both} x face{none,ll,xyz,both}, supplied centres differ from the "
         "corner mean, longitudes supplied as [-180,180], [0,360) or mixed, supplied xyz unit or scaled; histories = "
         "random sequences over the 18 coordinate properties, normalize_cartesian_coordinates, construct_face_centers('welzl' / "
@@ -897,6 +942,7 @@ def main(ck):
         dist["special"][c["special"]] = dist["special"].get(c["special"], 0) + 1
         dist["hist_len"][str(len(c["ops"]))] = dist["hist_len"].get(str(len(c["ops"])), 0) + 1
         dist["scaled"] += int(any(c["scaled"].values()))
+        dist["fine_regional_meshes"] = dist.get("fine_regional_meshes", 0) + int(bool(c.get("fine")))
         for o_ in c["ops"]:
             if o_ in ("welzl", "cartavg", "normalize") or o_.startswith("set:"):
                 k_ = o_.split(":")[0]
